@@ -16,6 +16,8 @@ import (
 	"os"
 	"runtime/debug"
 	"slices"
+	"sync/atomic"
+	"time"
 
 	rhp2 "go.sia.tech/core/rhp/v2"
 	proto4 "go.sia.tech/core/rhp/v4"
@@ -40,6 +42,7 @@ type checker struct {
 	// the attempt in flight, for failures detected outside attempt()
 	cur       *attempt
 	curBefore snap
+	retries   atomic.Int64 // blind stretches: RPCs repeated because the host was still busy
 }
 
 // name renders a root as a pool number (or an unknown number) for replay files.
@@ -412,6 +415,10 @@ func (k *checker) accountAttempts(r *rng.R, phase string) {
 					a.Off = uint64(r.Intn(int(proto4.LeavesPerSector)))
 				case "write":
 					a.Len = []uint64{64, 128, 4096, 1 << 16}[rep]
+					if v == acctTruncatedData { // bytes that do arrive: none, one leaf, three quarters, all but one
+						a.Len = []uint64{128, 128, 4096, 1 << 16}[rep]
+						a.Off = []uint64{0, 64, 3072, 1<<16 - 1}[rep]
+					}
 				}
 				switch v {
 				case acctUnknownRoot:
@@ -568,55 +575,65 @@ func (k *checker) blindRun(w *blindWorker, r *rng.R, steps int) {
 	e := k.e
 	ctx := context.Background()
 	for i := 0; i < steps && w.err == ""; i++ {
-		cr := rhp4.ContractRevision{ID: w.cid, Revision: w.rev}
 		p := r.Intn(10)
 		if len(w.model) > 40 {
 			p = r.Intn(5) // shrink or list
 		}
-		err := safely(func() error {
-			switch {
-			case len(w.model) > 0 && p < 3:
-				idx := randomIndices(r, len(w.model), min(len(w.model)+1, 6+len(w.model)/4))
-				w.ops = append(w.ops, fmt.Sprintf("free%v", idx))
-				res, err := rhp4.RPCFreeSectors(ctx, e.tc, e.renterKey, e.cs, e.prices, cr, idx)
+		// choose the operation; op performs it from the renter's current revision
+		var op func() error
+		switch {
+		case len(w.model) > 0 && p < 3:
+			idx := randomIndices(r, len(w.model), min(len(w.model)+1, 6+len(w.model)/4))
+			w.ops = append(w.ops, fmt.Sprintf("free%v", idx))
+			op = func() error {
+				res, err := rhp4.RPCFreeSectors(ctx, e.tc, e.renterKey, e.cs, e.prices, rhp4.ContractRevision{ID: w.cid, Revision: w.rev}, idx)
 				if err != nil {
 					return err
 				}
 				w.rev = res.Revision
 				w.model, _ = modelFree(w.model, idx)
-			case len(w.model) > 0 && p < 5: // a read API as the first call after a change
-				off := uint64(r.Intn(len(w.model)))
-				n := 1 + uint64(r.Intn(len(w.model)-int(off)))
-				w.ops = append(w.ops, fmt.Sprintf("list[%d,+%d]", off, n))
-				res, err := rhp4.RPCSectorRoots(ctx, e.tc, e.cs, e.prices, e.renterKey, cr, off, n)
+				return nil
+			}
+		case len(w.model) > 0 && p < 5: // a read API as the first call after a change
+			off := uint64(r.Intn(len(w.model)))
+			n := 1 + uint64(r.Intn(len(w.model)-int(off)))
+			w.ops = append(w.ops, fmt.Sprintf("list[%d,+%d]", off, n))
+			op = func() error {
+				res, err := rhp4.RPCSectorRoots(ctx, e.tc, e.cs, e.prices, e.renterKey, rhp4.ContractRevision{ID: w.cid, Revision: w.rev}, off, n)
 				if err != nil {
 					return err
 				}
 				w.rev = res.Revision
 				if !slices.Equal(res.Roots, w.model[off:off+n]) {
-					return fmt.Errorf("listing [%d,+%d) returned %v, the renter's own model has %v", off, n, k.names(res.Roots), k.names(w.model[off:off+n]))
+					w.err = fmt.Sprintf("step %d: listing [%d,+%d) returned %v, the renter's own model has %v", i, off, n, k.names(res.Roots), k.names(w.model[off:off+n]))
 				}
-			case p == 5:
-				w.ops = append(w.ops, "fund")
-				amt := types.NewCurrency64(uint64(1 + r.Intn(1000)))
-				res, err := rhp4.RPCFundAccounts(ctx, e.tc, e.cs, e.renterKey, cr, []proto4.AccountDeposit{{Account: e.account, Amount: amt}})
+				return nil
+			}
+		case p == 5:
+			w.ops = append(w.ops, "fund")
+			amt := types.NewCurrency64(uint64(1 + r.Intn(1000)))
+			op = func() error {
+				res, err := rhp4.RPCFundAccounts(ctx, e.tc, e.cs, e.renterKey, rhp4.ContractRevision{ID: w.cid, Revision: w.rev}, []proto4.AccountDeposit{{Account: e.account, Amount: amt}})
 				if err != nil {
 					return err
 				}
 				w.rev, w.funded = res.Revision, w.funded.Add(amt)
-			default:
-				n := 1 + r.Intn(5)
-				roots := make([]types.Hash256, n)
-				var names []int
-				for j := range roots {
-					s := r.Intn(len(e.pool))
-					if r.Intn(6) == 0 {
-						s = unknownBase + r.Intn(3)
-					}
-					roots[j], names = e.sectorRoot(s), append(names, s)
+				return nil
+			}
+		default:
+			n := 1 + r.Intn(5)
+			roots := make([]types.Hash256, n)
+			var names []int
+			for j := range roots {
+				s := r.Intn(len(e.pool))
+				if r.Intn(6) == 0 {
+					s = unknownBase + r.Intn(3)
 				}
-				w.ops = append(w.ops, fmt.Sprintf("append%v", names))
-				res, err := rhp4.RPCAppendSectors(ctx, e.tc, e.renterKey, e.cs, e.prices, cr, roots)
+				roots[j], names = e.sectorRoot(s), append(names, s)
+			}
+			w.ops = append(w.ops, fmt.Sprintf("append%v", names))
+			op = func() error {
+				res, err := rhp4.RPCAppendSectors(ctx, e.tc, e.renterKey, e.cs, e.prices, rhp4.ContractRevision{ID: w.cid, Revision: w.rev}, roots)
 				if err != nil {
 					return err
 				}
@@ -626,11 +643,42 @@ func (k *checker) blindRun(w *blindWorker, r *rng.R, steps int) {
 						w.model = append(w.model, e.pool[s])
 					}
 				}
+				return nil
 			}
-			return nil
-		})
-		if err != nil {
-			w.err = fmt.Sprintf("step %d (%s): %v", i, w.ops[len(w.ops)-1], err)
+		}
+		// A refusal is not a defect by itself: the host releases the contract only after it has
+		// written its last response, so a renter that is faster than that is told the contract
+		// is busy. Like a real renter it asks for the latest revision: if nothing was committed
+		// it tries again; only persistent refusal, or a commit the renter was not told of, counts.
+		for try := 0; ; try++ {
+			err := safely(op)
+			if err == nil {
+				break
+			}
+			var latest proto4.RPCLatestRevisionResponse
+			var lerr error
+			for n := 0; n < 200; n++ {
+				lerr = safely(func() (err error) {
+					latest, err = rhp4.RPCLatestRevision(ctx, e.tc, w.cid)
+					return err
+				})
+				if lerr == nil {
+					break
+				}
+				time.Sleep(100 * time.Microsecond)
+			}
+			switch {
+			case lerr != nil:
+				w.err = fmt.Sprintf("step %d (%s): %v; and the latest revision cannot be fetched: %v", i, w.ops[len(w.ops)-1], err, lerr)
+			case latest.Contract.RevisionNumber != w.rev.RevisionNumber:
+				w.err = fmt.Sprintf("step %d (%s) failed on the renter side (%v) but the host moved to revision %d", i, w.ops[len(w.ops)-1], err, latest.Contract.RevisionNumber)
+			case try >= 3:
+				w.err = fmt.Sprintf("step %d (%s) refused %d times in a row: %v", i, w.ops[len(w.ops)-1], try+1, err)
+			default:
+				k.retries.Add(1)
+				continue
+			}
+			break
 		}
 	}
 }
@@ -664,6 +712,7 @@ func (k *checker) blindStretch(r *rng.R, parallel bool, steps int) {
 		mode = "parallel"
 	}
 	res.Count("blind-stretch:" + mode)
+	res.CountN("blind-stretch:repeated-after-busy-refusal", int(k.retries.Swap(0)))
 	funded := types.ZeroCurrency
 	for i, w := range ws {
 		after := e.snapshotOf(w.cid)
@@ -1227,6 +1276,8 @@ func runC09(c *hx.Ctx) {
 			a := randomAttempt(sr, len(st.roots), len(e.pool), target)
 			if sr.Intn(8) == 0 {
 				a = randomAccountAttempt(sr, len(e.pool))
+			} else if sr.Intn(12) == 0 { // the other RPC that revises the contract, in the mix
+				a = attempt{Kind: kindFund, Len: uint64(sr.Intn(5000)), Script: []int{scriptComplete, scriptComplete, scriptBadSignature, scriptCloseAfterReq, scriptHalfRequest}[sr.Intn(5)], BadSig: sr.Intn(4), Raw: sr.Bool()}
 			}
 			trace = append(trace, a.String())
 			k.attempt(a, len(k.cases) < coqBudget, "random")
